@@ -368,8 +368,22 @@ def _s(rng, atoms, lo, hi):
     return "".join(rng.choice(atoms) for _ in range(rng.randint(lo, hi)))
 
 
+RFC_TCHAR = frozenset("!#$%&'*+-.^_`|~0123456789abcdefghijklmnopqrstuvwxyzABCDEFGHIJKLMNOPQRSTUVWXYZ")
+# letters and digits outside ASCII (Unicode \\w), alone and next to ASCII letters: a value made only of these must be quoted
+WORD_CHARS = ["é", "ü", "ß", "Ж", "日", "本", "語", "٣", "Ａ", "９", "ｚ", "α", "ñ", "a", "b", "c", "f", "0", "7", "_"]
+WORD_VALUES = ["café", "日本語", "٣", "Ａ", "Жук", "naïve", "über", "x٣", "٣x", "é", "a_é", "ｚ９", "año2024"]
+
+
+def gen_word(rng) -> str:
+    w = "".join(rng.choice(WORD_CHARS) for _ in range(rng.randint(1, 6)))
+    return w if any(ord(c) > 127 for c in w) else w + rng.choice(WORD_CHARS[:13])
+
+
 def gen_value(rng) -> str:
     """a value of the property's domain: any Unicode text without CR/LF."""
+    r = rng.random()
+    if r < 0.08:
+        return gen_word(rng)
     r = rng.random()
     if r < 0.2:
         return _s(rng, TOK, 0, 6)
@@ -494,7 +508,7 @@ def run(chk: Check) -> None:
         corpus = json.load(fh)
 
     # ------------------------------------------------------------ quote / unquote
-    corpus_vals = ["", '"', "\\", '\\"', '"\\', "\\\\", 'a"b', "a b", "a,b", "%22", "a%22b", '"a"', "a\\", "\\\\\"", " ", "é", "\x00", "a;b=c", "*", "k*",
+    corpus_vals = WORD_VALUES + ["", '"', "\\", '\\"', '"\\', "\\\\", 'a"b', "a b", "a,b", "%22", "a%22b", '"a"', "a\\", "\\\\\"", " ", "é", "\x00", "a;b=c", "*", "k*",
                    '"\\"', "\\\"\\", '""', "'", "\t", "\U0001f600"]
     vals = corpus_vals + [gen_value(rng) for _ in range(n)]
     for v in vals:
@@ -512,7 +526,7 @@ def run(chk: Check) -> None:
         C.add(f"unquote {cps(v)}", lambda: cps(H.unquote_header_value(v)))
 
     # ------------------------------------------------------------ lists / sets
-    lists = [[], [""], ["", ""], ['"'], ["a", "b c"], ["a,b", 'c"d'], ["\\", "\\\\"], [" a "], ["a\\"]]
+    lists = [[w] for w in WORD_VALUES] + [WORD_VALUES[:4], [], [""], ["", ""], ['"'], ["a", "b c"], ["a,b", 'c"d'], ["\\", "\\\\"], [" a "], ["a\\"]]
     lists += [[gen_value(rng) for _ in range(rng.randint(0, 4))] for _ in range(n)]
     for l in lists:
         hdr = C.add(f"dlist {fl(l)}", lambda: cps(H.dump_header(l)))
@@ -540,7 +554,7 @@ def run(chk: Check) -> None:
             rt_fail("list-normal-form", f"parse(dump(parse h)) = {p2!r} != parse h = {p!r}", {"header": h})
 
     # ------------------------------------------------------------ dicts
-    dicts = [{}, {"a": "b"}, {"a": None}, {"a": ""}, {"a": '"'}, {"a": "b c", "d": None, "e": "f,g"}, {"k": "%22"}, {"k": "x=y"}, {"k": " "}]
+    dicts = [{"k": w} for w in WORD_VALUES] + [{"a": "café", "b": "日本語", "c": None}, {}, {"a": "b"}, {"a": None}, {"a": ""}, {"a": '"'}, {"a": "b c", "d": None, "e": "f,g"}, {"k": "%22"}, {"k": "x=y"}, {"k": " "}]
     for _ in range(n):
         d = {}
         for _ in range(rng.randint(0, 4)):
@@ -571,7 +585,7 @@ def run(chk: Check) -> None:
             p = T(lambda: H.parse_dict_header(h))
         except Exception:  # noqa: BLE001
             continue
-        guard = all(k and set(k) <= set(H._token_chars) and "*" not in k for k in p)
+        guard = all(k and set(k) <= RFC_TCHAR and "*" not in k for k in p)
         try:
             p2 = T(lambda: H.parse_dict_header(H.dump_header(p)))
         except Exception as e:  # noqa: BLE001
@@ -591,7 +605,7 @@ def run(chk: Check) -> None:
             v = gen_value(rng).replace("%22", "%2")
             o[gen_key(rng, lower=True)] = v
         return o
-    opt_cases = [("text/html", {}), ("text/html", {"charset": "utf-8"}), ("a", {"b": ""}), ("a", {"b": '"'}), ("a", {"b": "\\"}), ("a", {"b": "c;d", "e": "f"}),
+    opt_cases = [("attachment", {"filename": w}) for w in WORD_VALUES] + [("form-data", {"name": "café", "filename": "日本語"}), ("text/html", {}), ("text/html", {"charset": "utf-8"}), ("a", {"b": ""}), ("a", {"b": '"'}), ("a", {"b": "\\"}), ("a", {"b": "c;d", "e": "f"}),
                  ("form-data", {"name": 'a"b', "filename": "é .txt"}), ("x", {"k": "%2"}), ("x", {"k": "a%22".replace("%22", "%2 2")})]
     for _ in range(n):
         hd = rng.choice(["text/html", "a", "form-data", "x y", "é", "*/*"]) if rng.random() < 0.7 else \
@@ -940,12 +954,69 @@ def run(chk: Check) -> None:
             if not 1000 <= d0.astimezone(dtm.timezone.utc).year <= 9999:
                 continue
         dts.append(d0)
+    # every flavour of datetime: zero-offset zones that are not the timezone.utc singleton, custom tzinfo classes, named zones
+    class _FixedTz(dtm.tzinfo):
+        def __init__(self, minutes, name):
+            self._off, self._name = dtm.timedelta(minutes=minutes), name
+
+        def utcoffset(self, dt):
+            return self._off
+
+        def dst(self, dt):
+            return dtm.timedelta(0)
+
+        def tzname(self, dt):
+            return self._name
+    zones = [dtm.timezone.utc, dtm.timezone(dtm.timedelta(0)), dtm.timezone(dtm.timedelta(0), "X"), dtm.timezone(dtm.timedelta(hours=5, minutes=30)),
+             dtm.timezone(dtm.timedelta(hours=-8), "PST"), _FixedTz(0, "Zero"), _FixedTz(0, "UTC"), _FixedTz(90, "Plus"), _FixedTz(-570, "Minus")]
+    try:
+        from zoneinfo import ZoneInfo
+        for zn in ("UTC", "Etc/UTC", "Europe/London", "Africa/Abidjan", "America/New_York", "Asia/Kolkata", "Australia/Lord_Howe"):
+            try:
+                zones.append(ZoneInfo(zn))
+            except Exception:  # noqa: BLE001  (no tzdata on this machine)
+                chk.count("dates: ZoneInfo zone unavailable")
+    except ImportError:
+        chk.count("dates: zoneinfo unavailable")
+    bases = [dtm.datetime(2026, 1, 15, 12, 30, 45), dtm.datetime(2026, 7, 15, 0, 0, 0), dtm.datetime(1970, 1, 1), dtm.datetime(2038, 1, 19, 3, 14, 8),
+             dtm.datetime(1000, 6, 1), dtm.datetime(9999, 6, 1, 23, 59, 59), dtm.datetime(2024, 2, 29, 23, 59, 59), dtm.datetime(2025, 3, 30, 1, 30), dtm.datetime(2025, 10, 26, 1, 30)]
+    for bz in bases:
+        for z in zones:
+            dts.append(bz.replace(tzinfo=z))
+    for _ in range(n // 4):
+        bz = dtm.datetime(rng.randint(1001, 9998), rng.randint(1, 12), rng.randint(1, 28), rng.randint(0, 23), rng.randint(0, 59), rng.randint(0, 59))
+        dts.append(bz.replace(tzinfo=rng.choice(zones)))
+    # int / float timestamps, struct_time and plain dates: the other documented inputs of http_date
+    import re as _re
+    import time as _time
+    imf = _re.compile(r"(Mon|Tue|Wed|Thu|Fri|Sat|Sun), \d{2} (Jan|Feb|Mar|Apr|May|Jun|Jul|Aug|Sep|Oct|Nov|Dec) \d{4} \d{2}:\d{2}:\d{2} GMT")
+    stamps = [0, 1, 59, 86399, 86400, 951782400, 2 ** 31 - 1, 2 ** 31, 2 ** 32, 253402300799, 1700000000.0, 1700000000.5, 0.999, 1e9] + \
+             [rng.randint(0, 253402300799) for _ in range(n // 8)] + [rng.uniform(0, 4e9) for _ in range(n // 8)]
+    others = [(ts, int(ts // 1)) for ts in stamps] + [(_time.localtime(int(ts)), int(ts)) for ts in stamps[:12] + stamps[14:14 + n // 16] if ts < 2 ** 33] + \
+             [(dtm.date(y, mo, d), int(dtm.datetime(y, mo, d, tzinfo=dtm.timezone.utc).timestamp())) for y, mo, d in [(1970, 1, 1), (2026, 12, 31), (2024, 2, 29), (1000, 1, 1), (9999, 12, 31)]]
+    for x, instant in others:
+        try:
+            hdr = T(lambda: H.http_date(x))
+            got = T(lambda: H.parse_date(hdr))
+            ok = imf.fullmatch(hdr) is not None and got is not None and got.tzinfo is not None and int(got.timestamp()) == instant
+            what = f"http_date = {hdr!r}, parse_date = {got!r}"
+        except Exception as ex:  # noqa: BLE001
+            ok, what = False, f"raised {type(ex).__name__}: {ex}"
+        if not ok:
+            rt_fail("date-roundtrip", f"http_date({x!r}): {what}, instant {instant}", {"value": repr(x)})
+        chk.case(("date-other", repr(x)))
     contract_bad = 0
     for d0 in dts:
         u = d0.replace(tzinfo=dtm.timezone.utc) if d0.tzinfo is None else d0.astimezone(dtm.timezone.utc)
         tt = u.timetuple()
         C.add(f"fdate {tt[6]} {tt[2]} {tt[1]} {tt[0]} {tt[3]} {tt[4]} {tt[5]}", lambda: cps(H.http_date(d0)))
-        hdr = H.http_date(d0)
+        try:
+            hdr = T(lambda: H.http_date(d0))
+        except Exception as ex:  # noqa: BLE001
+            rt_fail("date-roundtrip", f"http_date({d0!r}) raised {type(ex).__name__}: {ex}", {"datetime": repr(d0)})
+            continue
+        if imf.fullmatch(hdr) is None:
+            rt_fail("date-shape", f"http_date({d0!r}) = {hdr!r} is not an IMF-fixdate", {"datetime": repr(d0)})
         C.add(f"pdate {cps(hdr)}", lambda: (lambda r: "~" if r is None else f"{r.day} {r.month} {r.year} {r.hour} {r.minute} {r.second}")(H.parse_date(hdr)))
         # the calendar contract of C06_date_roundtrip: the constructor inverts the UTC field view
         if dtm.datetime(tt[0], tt[1], tt[2], tt[3], tt[4], tt[5], tzinfo=dtm.timezone.utc) != u or not (0 <= tt[6] < 7):
@@ -956,7 +1027,7 @@ def run(chk: Check) -> None:
         except Exception as ex:  # noqa: BLE001
             back, ok = repr(ex), False
         if not ok:
-            rt_fail("date-roundtrip", f"parse_date(http_date(dt)) = {back!r}", {"datetime": d0.isoformat()})
+            rt_fail("date-roundtrip", f"parse_date(http_date({d0!r})) = {back!r}", {"datetime": repr(d0)})
     if contract_bad:
         chk.broken("contract", "calendar (datetime / email.utils)", f"{contract_bad} instants are not rebuilt from their UTC field tuple")
     chk.count("dates", len(dts))
